@@ -273,10 +273,14 @@ def frontends(run, rng, n):
             w.api(hname, "delete", "b2")
             w.api(hname, "add", "b2")
             w.guarded(hname, "update_document", lambda: holder.update_document(key=u"b2", body=u"x new"))
+            # ... and b3, which the AsyncWriter deletes by query
+            w.api(hname, "delete", "b3")
+            w.api(hname, "add", "b3")
+            w.guarded(hname, "update_document", lambda: holder.update_document(key=u"b3", body=u"x newer"))
             w.nw += 1
             aname = "w%d" % w.nw
             w.writers.append(aname)
-            pending = [("delete", "b2"), ("delete", "a1"), ("add", "a1"), ("delete", "a2"), ("add", "a2")]
+            pending = [("delete", "b2"), ("delete", "b3"), ("delete", "a1"), ("add", "a1"), ("delete", "a2"), ("add", "a2")]
             # (a call that raises becomes an 'apierror' event, which no action of the specification allows)
             ok, aw = w.guarded(aname, "AsyncWriter", lambda: writing.AsyncWriter(_IndexProxy(w, aname, pending), delay=0.01))
             # when the lock holder commits: after the AsyncWriter's commit() (which then retries in its own
@@ -285,6 +289,8 @@ def frontends(run, rng, n):
             cfg = dict(cfg, holder_commits=["after", "before-commit", "mid-session"][variant])
             if ok:
                 w.guarded(aname, "AsyncWriter.delete_by_term", lambda: aw.delete_by_term("key", u"b2"))
+                from whoosh import query as _q
+                w.guarded(aname, "AsyncWriter.delete_by_query", lambda: aw.delete_by_query(_q.Term("key", u"b3")))
                 if variant == 2:
                     w.guarded(hname, "commit", lambda: holder.commit(optimize=True))
                 w.guarded(aname, "AsyncWriter.update_document", lambda: aw.update_document(key=u"a1", body=u"x"))
